@@ -19,6 +19,18 @@ BIG = 2305843009213693951          # 2^61 - 1 (prime): second modulus used to co
 NP_DTYPE = {"int": "int64", "float": "float64"}
 
 
+def repeat_alarm(seconds: float, every: float = 2.0):
+    """The runner arms a one-shot SIGALRM per case. While `IndexMap`'s collision loop spins inside pandas, the
+    exception raised by that one signal can be swallowed (an `except Exception` inside pandas, a finalizer) and the
+    case would then hang for good (seen once under mutants/C03/break-modulus-off-by-one). Re-arm the same timer with
+    an interval, so the alarm keeps coming until the runner disarms it (`signal.alarm(0)` clears the interval too)."""
+    import signal
+    try:
+        signal.setitimer(signal.ITIMER_REAL, float(seconds), float(every))
+    except (ValueError, OSError):      # not in the main thread: leave the runner's alarm alone
+        pass
+
+
 def coprime_sizes(ncols: int, lo: int, hi: int) -> list[int]:
     """block sizes for which the salt shift ncols*111111 generates every residue (DESIGN.md F11)"""
     return [s for s in range(lo, hi + 1) if math.gcd(s, max(1, ncols) * SPREAD) == 1]
